@@ -80,29 +80,29 @@ type CP struct {
 	B     byte
 }
 type Mini struct {
-	Fork                                int // 0 phase0 .. 4 deneb
-	Slot                                uint64
-	Vals                                []MV
-	Bals                                []uint64
-	PP, CPart                           []uint8
-	Scores                              []uint64
-	Slash                               []uint64
-	Bits                                uint8
-	PJ, CJ, Fin                         CP
-	Votes                               int
-	Hist                                int
-	PAtts, CAtts                        []Pend
-	Comms                               []Comm
+	Fork         int // 0 phase0 .. 4 deneb
+	Slot         uint64
+	Vals         []MV
+	Bals         []uint64
+	PP, CPart    []uint8
+	Scores       []uint64
+	Slash        []uint64
+	Bits         uint8
+	PJ, CJ, Fin  CP
+	Votes        int
+	Hist         int
+	PAtts, CAtts []Pend
+	Comms        []Comm
 }
 
 // a pending attestation of a phase0 state
 type Pend struct {
-	Bits                              []bool
-	Slot, Index                       uint64
-	BBR                               byte
-	Src, Tgt                          uint64
-	TgtRoot                           byte
-	Delay, Proposer                   uint64
+	Bits            []bool
+	Slot, Index     uint64
+	BBR             byte
+	Src, Tgt        uint64
+	TgtRoot         byte
+	Delay, Proposer uint64
 }
 type Comm struct {
 	Slot, Index uint64
@@ -139,7 +139,9 @@ func patt(b byte) (r common.Root) {
 	return
 }
 
-func cpOf(c CP) common.Checkpoint { return common.Checkpoint{Epoch: common.Epoch(c.Epoch), Root: patt(c.B)} }
+func cpOf(c CP) common.Checkpoint {
+	return common.Checkpoint{Epoch: common.Epoch(c.Epoch), Root: patt(c.B)}
+}
 
 type rawState interface {
 	Serialize(spec *common.Spec, w *codec.EncodingWriter) error
@@ -265,15 +267,15 @@ func buildState(spec *common.Spec, m *Mini) (common.BeaconState, error) {
 
 // ---- observation of a state ----
 type Obs struct {
-	Vals                      []MV
-	Bals                      []uint64
-	PP, CPart                 []uint8
-	Scores, Slash             []uint64
-	Bits                      uint8
-	PJ, CJ, Fin               common.Checkpoint
-	Votes                     int
-	Mixes                     []byte
-	Hist                      []common.Root
+	Vals          []MV
+	Bals          []uint64
+	PP, CPart     []uint8
+	Scores, Slash []uint64
+	Bits          uint8
+	PJ, CJ, Fin   common.Checkpoint
+	Votes         int
+	Mixes         []byte
+	Hist          []common.Root
 }
 
 func observe(spec *common.Spec, fork int, st common.BeaconState) (*Obs, error) {
@@ -459,18 +461,18 @@ func goRes(body string, err error, panicked bool) string {
 // ---- random generation ----
 func genKnobs(r *Rng) Knobs {
 	var p Knobs
-	p[0] = uint64([]int{1, 2, 2, 3, 4}[r.Intn(5)])         // MIN_PER_EPOCH_CHURN_LIMIT
-	p[1] = uint64([]int{2, 4, 4, 8, 32}[r.Intn(5)])        // CHURN_LIMIT_QUOTIENT (small: the quotient part matters for 8 validators)
-	p[2] = uint64([]int{1, 2, 3, 8}[r.Intn(4)])            // MAX_PER_EPOCH_ACTIVATION_CHURN_LIMIT
-	p[3] = uint64([]int{1, 2, 4}[r.Intn(3)])               // MAX_SEED_LOOKAHEAD
-	p[4] = uint64([]int{16, 16, 20, 31}[r.Intn(4)]) * ETH  // EJECTION_BALANCE
-	p[5] = uint64([]int{1, 4, 256}[r.Intn(3)])             // MIN_VALIDATOR_WITHDRAWABILITY_DELAY
-	p[6] = uint64([]int{64, 64, 1024, 16384}[r.Intn(4)])   // BASE_REWARD_FACTOR
-	p[7] = uint64([]int{1, 4, 4}[r.Intn(3)])               // INACTIVITY_SCORE_BIAS
-	p[8] = uint64([]int{1, 16, 16}[r.Intn(3)])             // INACTIVITY_SCORE_RECOVERY_RATE
-	p[9] = uint64([]int{1, 2, 4}[r.Intn(3)])               // MIN_EPOCHS_TO_INACTIVITY_PENALTY
-	p[10] = uint64([]int{1, 2, 4}[r.Intn(3)])              // EPOCHS_PER_ETH1_VOTING_PERIOD
-	p[11] = uint64([]int{16, 1024, 1 << 24}[r.Intn(3)])    // INACTIVITY_PENALTY_QUOTIENT*
+	p[0] = uint64([]int{1, 2, 2, 3, 4}[r.Intn(5)])        // MIN_PER_EPOCH_CHURN_LIMIT
+	p[1] = uint64([]int{2, 4, 4, 8, 32}[r.Intn(5)])       // CHURN_LIMIT_QUOTIENT (small: the quotient part matters for 8 validators)
+	p[2] = uint64([]int{1, 2, 3, 8}[r.Intn(4)])           // MAX_PER_EPOCH_ACTIVATION_CHURN_LIMIT
+	p[3] = uint64([]int{1, 2, 4}[r.Intn(3)])              // MAX_SEED_LOOKAHEAD
+	p[4] = uint64([]int{16, 16, 20, 31}[r.Intn(4)]) * ETH // EJECTION_BALANCE
+	p[5] = uint64([]int{1, 4, 256}[r.Intn(3)])            // MIN_VALIDATOR_WITHDRAWABILITY_DELAY
+	p[6] = uint64([]int{64, 64, 1024, 16384}[r.Intn(4)])  // BASE_REWARD_FACTOR
+	p[7] = uint64([]int{1, 4, 4}[r.Intn(3)])              // INACTIVITY_SCORE_BIAS
+	p[8] = uint64([]int{1, 16, 16}[r.Intn(3)])            // INACTIVITY_SCORE_RECOVERY_RATE
+	p[9] = uint64([]int{1, 2, 4}[r.Intn(3)])              // MIN_EPOCHS_TO_INACTIVITY_PENALTY
+	p[10] = uint64([]int{1, 2, 4}[r.Intn(3)])             // EPOCHS_PER_ETH1_VOTING_PERIOD
+	p[11] = uint64([]int{16, 1024, 1 << 24}[r.Intn(3)])   // INACTIVITY_PENALTY_QUOTIENT*
 	return p
 }
 
@@ -574,10 +576,17 @@ func genMini(r *Rng, p Knobs, fork int) *Mini {
 			v.Exit = uint64(r.Intn(int(ce + 1)))
 			v.Wd = v.Exit + uint64(r.Intn(3))
 		}
+		// an emptied validator (fully withdrawn, or penalised to nothing): effective balance 0, where a
+		// hysteresis test written with an unsigned subtraction would wrap
+		if r.Chance(8) {
+			v.Eff = 0
+		}
 		m.Vals = append(m.Vals, v)
 		// balances around the hysteresis thresholds of the effective balance (down 0.25, up 1.25)
 		b := v.Eff
-		switch r.Intn(8) {
+		switch r.Intn(9) {
+		case 8:
+			b = ETH + uint64(r.Intn(int(ETH/4)+3)) - 1 // 1 ETH .. 1.25 ETH: the upward threshold of effective balance 0
 		case 0:
 			b = v.Eff - ETH/4 - uint64(r.Intn(3)) + 1
 		case 1:
@@ -607,8 +616,8 @@ func genMini(r *Rng, p Knobs, fork int) *Mini {
 		limit := int(p[0])
 		e1 := aee + uint64(r.Intn(2))
 		e2 := e1 + 1 + uint64(r.Intn(2))
-		k2 := r.Intn(limit)            // < limit at the queue end
-		k1 := limit - k2 + r.Intn(2)   // enough earlier exits to reach the limit in total
+		k2 := r.Intn(limit)          // < limit at the queue end
+		k1 := limit - k2 + r.Intn(2) // enough earlier exits to reach the limit in total
 		j := 0
 		for ; j < n-1 && k1 > 0; j++ {
 			m.Vals[j] = MV{Eff: 32 * ETH, Elig: 0, Act: 0, Exit: e1, Wd: e1 + p[5]}
